@@ -161,6 +161,50 @@ def check(prog, run):
     if "StopIteration" in res:
         run.report(r, "%s:Parser._advance_window:escapes(StopIteration)" % PARSER, aw.where(), "StopIteration from the lexer escapes the parsing window")
 
+    # ---- X2 implicit TypeError: a node's `loc` is None when the parser runs with no_location
+    r = run.rule("X2", "in lang/parser.py no expression subscripts, unpacks, iterates or reads an attribute of a node's `.loc` "
+                       "(declared Optional; `Parser._loc` returns None under no_location=True) unless a test of that very "
+                       "expression (truthiness / `is not None`) dominates it: the TypeError would escape parse() instead of a "
+                       "syntax error", 0)
+    pm = prog.module(PARSER)
+    for f in [x for x in prog.all_funcs() if x.module is pm]:
+        for n in own_nodes(f.node):
+            if not (isinstance(n, ast.Attribute) and n.attr == "loc" and isinstance(n.ctx, ast.Load)):
+                continue
+            par = getattr(n, "_parent", None)
+            use = None
+            if isinstance(par, ast.Subscript) and par.value is n:
+                use = "subscripted"
+            elif isinstance(par, ast.Attribute) and par.value is n:
+                use = "attribute read"
+            elif isinstance(par, ast.Starred) or (isinstance(par, (ast.For, ast.comprehension)) and par.iter is n):
+                use = "iterated"
+            elif isinstance(par, ast.Assign) and par.value is n and isinstance(par.targets[0], (ast.Tuple, ast.List)):
+                use = "unpacked"
+            elif isinstance(par, ast.BinOp):
+                use = "used in arithmetic"
+            if use is None:
+                continue
+            txt = ast.unparse(n)
+            guarded = False
+            cur = n
+            while getattr(cur, "_parent", None) is not None and cur is not f.node:
+                p_ = cur._parent
+                if isinstance(p_, (ast.If, ast.IfExp)) and cur is not p_.test:
+                    body = p_.body if isinstance(p_.body, list) else [p_.body]
+                    tt = ast.unparse(p_.test)
+                    if any(cur is b for b in body) and (tt == txt or tt == "%s is not None" % txt or tt.startswith(txt + " and ") or tt.startswith("%s is not None and " % txt)):
+                        guarded = True
+                if isinstance(p_, ast.BoolOp) and isinstance(p_.op, ast.And) and cur in p_.values:
+                    if any(ast.unparse(v) in (txt, "%s is not None" % txt) for v in p_.values[:p_.values.index(cur)]):
+                        guarded = True
+                cur = p_
+            r.instance("%s: `%s` %s, guarded: %s" % (f.qualname, txt, use, guarded))
+            if not guarded:
+                run.report(r, "%s:%s:optional-loc(%s)" % (PARSER, f.qualname, txt), f.where(n),
+                           "`%s` is %s, but a node parsed with no_location=True has loc None: a TypeError escapes the parser where "
+                           "the property allows only the library's syntax error" % (txt, use))
+
     from . import c01_grammar
     c01_grammar.check(prog, run)
     check_text_position_pairing(prog, run, "P2")
